@@ -8,6 +8,7 @@ import (
 	"go.sia.tech/core/consensus"
 
 	"go.sia.tech/core/types"
+	"verif/ref"
 	"verif/sim"
 )
 
@@ -887,6 +888,47 @@ func init() {
 		verr, ok = sc.offer(nil, []types.V2Transaction{t}, offerOpt{})
 		w.expect("C08", "K8-early-expiration-with-foundation-update", verr, ok, false, fmt.Sprintf("the same transaction also expires v2 contract %v (expiration height %d) in the block at height %d", c.id, e.V2FileContract.ExpirationHeight, sc.child()))
 	}})
+
+	// ---- C07 / C08: a contract whose window lies ahead, revised and then "proven" in one block
+	early := probeRow{"K3-v1-revised-then-proven-before-window", func(w *World, n *Node) {
+		sc := n.fork()
+		if !sc.v1ok() {
+			return
+		}
+		c := sc.pickLive(false, func(c *Contract) bool {
+			fc := sc.store.FC[c.id].FileContract
+			_, known := c.dataFor(fc.FileMerkleRoot, fc.Filesize)
+			return known && fc.Filesize > 0 && fc.WindowStart > sc.child()+1 && fc.RevisionNumber < types.MaxRevisionNumber-4
+		})
+		if c == nil {
+			return
+		}
+		cur := sc.store.FC[c.id].FileContract
+		data, _ := c.dataFor(cur.FileMerkleRoot, cur.Filesize)
+		rev := w.reviseV1From(sc.s, c, cur, nil, 1)
+		// the proof an early prover would build: the challenge taken from the parent block
+		parent := sc.s.Index.ID
+		idx := ref.ChallengeIndex(cur.Filesize, parent, c.id)
+		leaves := ref.FileLeaves(data)
+		sp := types.StorageProof{ParentID: c.id, Leaf: ref.LeafSegment(data, int(idx))}
+		if len(leaves) > 0 {
+			sp.Proof = ref.TreePath(leaves, int(idx))
+		}
+		prop := w.propAmong("C07", "C08")
+		for _, withRevision := range []bool{true, false} {
+			txns := []types.Transaction{{StorageProofs: []types.StorageProof{sp}}}
+			if withRevision {
+				txns = []types.Transaction{rev, txns[0]}
+			}
+			// (the supplement is the node's own, honest one: it names no window ID for
+			// a window that has not opened)
+			verr, ok := sc.offer(txns, nil, offerOpt{})
+			w.expect(prop, fmt.Sprintf("K3-v1-proven-before-window-revised-in-block=%v", withRevision), verr, ok, false,
+				fmt.Sprintf("v1 contract %v, whose proof window starts at height %d, is proven in the block at height %d against its parent block (revised by the previous transaction of the block: %v)", c.id, cur.WindowStart, sc.child(), withRevision))
+		}
+	}}
+	registerRows("C07", early)
+	registerRows("C08", early)
 
 	// ---- C04: leaf-index bits above the tree, a chain index whose block ID is altered, a contract that never existed
 	registerRows("C04", probeRow{"M1-high-leaf-index-bits", func(w *World, n *Node) {
